@@ -4,7 +4,7 @@ import Retro.Spec.Stats
 namespace Retro.Drv.C07
 open Retro Retro.Render Retro.Drv Retro.Drv.RenderCommon
 
-def handle (case impl : List String) : Verdict :=
+def handleCore (case impl : List String) : Verdict :=
   let s := parseScene case
   let secs := splitBars impl
   let io := parseImpl (String.intercalate " | " ((secs.take 5).map fun l => String.intercalate " " l) |>.splitOn " ")
@@ -158,5 +158,9 @@ def handle (case impl : List String) : Verdict :=
           "stats-prims-out" s!"prims.o does not count the triangles surviving culling: drawn pixel counts {n ab},{n af},{n bb},{n bf},{n an},{n bn} vs prims.o {pab},{paf},{pbb},{pbf},{pan},{pbn}"
       | _ => v
     | _ => v
+
+/-- `handleCore` plus the Float32 diagnostic tag (`RenderCommon.withF32`; never changes the status). -/
+def handle (case impl : List String) : Verdict :=
+  withF32 case impl (handleCore case impl)
 
 end Retro.Drv.C07
